@@ -60,16 +60,6 @@ bool RequestImpl::add(const char* request) {
       if (pos != string::npos) {
         m_request.resize(pos);  // remove "HTTP/x.x" suffix
       }
-      pos = 0;
-      while ((pos=m_request.find('%', pos)) != string::npos && pos+2 <= m_request.length()) {
-        unsigned int value1, value2;
-        if (sscanf(m_request.c_str()+pos+1, "%1x%1x", &value1, &value2) < 2) {
-          break;
-        }
-        m_request[pos] = static_cast<char>(((value1&0x0f) << 4) | (value2&0x0f));
-        m_request.erase(pos+1, 2);
-        pos++;  // do not decode the decoded character again
-      }
     } else if (pos+1 == m_request.length()) {
       m_request.resize(pos);  // reduce to complete lines
     }
@@ -102,6 +92,19 @@ void RequestImpl::split(vector<string>* args) {
           token.erase(token.length() - 1, 1);
           escaped = 0;
         }
+      }
+    }
+    if (m_isHttp) {
+      // decode percent escapes only after splitting, so that an encoded delimiter (e.g. %3f) stays part of the token
+      size_t pos = 0;
+      while ((pos=token.find('%', pos)) != string::npos && pos+2 <= token.length()) {
+        unsigned int value1, value2;
+        if (sscanf(token.c_str()+pos+1, "%1x%1x", &value1, &value2) < 2) {
+          break;
+        }
+        token[pos] = static_cast<char>(((value1&0x0f) << 4) | (value2&0x0f));
+        token.erase(pos+1, 2);
+        pos++;  // do not decode the decoded character again
       }
     }
     args->push_back(token);
